@@ -10,7 +10,7 @@ COMPS = {
 }
 
 
-def pipeline(ctx, comp, replay=None):
+def pipeline(ctx, comp, replay=None, parts=("tlc", "random"), mc=None):
     """MC + stimuli + execution + trace validation for one component; returns (rejections, heap)."""
     c = COMPS[comp]
     hx = ctx.cargo_build("hx_stream")
@@ -19,16 +19,18 @@ def pipeline(ctx, comp, replay=None):
         files = [("replay", replay)]
     else:
         stim = os.path.join(ctx.work, comp + "_stim.ndjson")
-        ctx.mc(c["mc"], "%s_%s.cfg" % (c["mc"], ctx.tier), workers=4, stim_out=stim,
-               need_actions=c["actions"], timeout=2400)
-        ctx.exhaustive = True
+        if "tlc" in parts:
+            m = mc or c
+            ctx.mc(m["mc"], "%s_%s.cfg" % (m["mc"], ctx.tier), workers=4, stim_out=stim,
+                   need_actions=m["actions"], timeout=2400)
+            ctx.exhaustive = True
         allr = os.path.join(ctx.work, "stream_rand.ndjson")
         if not os.path.exists(allr):
             ctx.harness(hx, ["gen", str(ctx.seed), ctx.tier, allr])
         rnd = os.path.join(ctx.work, comp + "_rand.ndjson")
         with open(rnd, "w") as f:
             f.writelines(l for l in open(allr) if '"comp":"%s"' % comp in l)
-        files = [("tlc", stim), ("random", rnd)]
+        files = [x for x in [("tlc", stim), ("random", rnd)] if x[0] in parts]
     for name, sf in files:
         tr = os.path.join(ctx.work, "%s_trace_%s.ndjson" % (comp, name))
         rej += ctx.run_stimuli(hx, sf, tr, comp)
